@@ -174,6 +174,7 @@ var histOps = func() []histOp {
 		{name: "URL:query:error", run: histDirect("query", "code", true)},
 		{name: "H:AuthResponse:form_post:code", body: true, form: true, run: histHandler("success", "form_post", "code")},
 		{name: "H:AuthRequestError:query", body: true, run: histHandler("AuthRequestError", "query", "code")},
+		{name: "H:TryErrorRedirect:query", run: histHandler("TryErrorRedirect", "query", "code")},
 	}
 	for i, rn := range rig.Routers {
 		p := "http:" + rn + ":"
@@ -183,6 +184,7 @@ var histOps = func() []histOp {
 			histOp{name: p + "query:code", body: true, run: histHTTP(i, "success", "query", "code")},
 			histOp{name: p + "fragment:token", body: true, run: histHTTP(i, "success", "fragment", tokenType)},
 			histOp{name: p + "error:query", body: true, run: histHTTP(i, "cbfault", "query", "code")},
+			histOp{name: p + "error-at-authorize:query", body: true, run: histHTTP(i, "createfault", "query", "code")},
 		)
 	}
 	return ops
@@ -373,6 +375,18 @@ func (hw *histWorld) runHistory(steps []histStep) histResp {
 	ref := hw.ref[last.Op+"|"+last.Val]
 	g, wf := histOpByName(last.Op).run(hw, histVals[last.Val], newFaultWriter(-1))
 	w := wf()
+	if inner := w.check; inner != nil { // the validity of a provider-made value is asked for twice (judge, normalise)
+		memo := map[string]bool{}
+		w.check = func(name, val string) bool {
+			k := name + "\x00" + val
+			r, ok := memo[k]
+			if !ok {
+				r = inner(name, val)
+				memo[k] = r
+			}
+			return r
+		}
+	}
 	res := judge(w, g)
 
 	prefix, cls := "complete-calls", "after-complete-call"
@@ -555,38 +569,55 @@ func runHistoryParts(c *engine.Check) {
 	}
 	all := histOpNames(nil)
 
-	// --- histories of length depth over the whole alphabet ---------------------
-	depth := engine.Pick(c, 2, 3)
-	var sp engine.Space
-	var names []string
-	for i := 1; i < depth; i++ {
-		p := strconv.Itoa(i) + "."
-		sp = append(sp, engine.D(p+"op", all...), engine.D(p+"val", histValNames...), engine.D(p+"fault", histFaults...))
-		names = append(names, p+"op", p+"val", p+"fault")
-	}
-	sp = append(sp, engine.D("last.op", all...), engine.D("last.val", histValNames...))
-	names = append(names, "last.op", "last.val")
-	stepsOf := func(v engine.Vec) []histStep {
-		var st []histStep
+	// --- histories over the whole alphabet ----------------------------------------
+	// length 2: full product. Length 3 (thorough): full product over calls and
+	// faults, crossed with every assignment of values in which at most one call
+	// deviates from v0 (7 of 27: the last response always meets a foreign value
+	// before it, or is itself the foreign one).
+	histories := func(part string, depth int, fullValues bool) {
+		var sp engine.Space
+		var group []string
 		for i := 1; i < depth; i++ {
 			p := strconv.Itoa(i) + "."
-			st = append(st, histStep{Op: sp.Get(v, p+"op"), Val: sp.Get(v, p+"val"), Fault: sp.Get(v, p+"fault")})
+			sp = append(sp, engine.D(p+"op", all...), engine.D(p+"val", histValNames...), engine.D(p+"fault", histFaults...))
+			group = append(group, p+"op", p+"fault")
+			if fullValues {
+				group = append(group, p+"val")
+			}
 		}
-		return append(st, histStep{Op: sp.Get(v, "last.op"), Val: sp.Get(v, "last.val")})
-	}
-	c.RunE1(engine.E1{
-		Part: "history", Space: sp, K: len(sp), Groups: [][]string{names},
-		Skip: func(v engine.Vec) bool { // a call without a body has no write to fail
+		sp = append(sp, engine.D("last.op", all...), engine.D("last.val", histValNames...))
+		group = append(group, "last.op")
+		if fullValues {
+			group = append(group, "last.val")
+		}
+		stepsOf := func(v engine.Vec) []histStep {
+			var st []histStep
 			for i := 1; i < depth; i++ {
 				p := strconv.Itoa(i) + "."
-				if sp.Get(v, p+"fault") != "never" && !isBody[sp.Get(v, p+"op")] {
-					return true
-				}
+				st = append(st, histStep{Op: sp.Get(v, p+"op"), Val: sp.Get(v, p+"val"), Fault: sp.Get(v, p+"fault")})
 			}
-			return false
-		},
-		NewWorker: histWorker(c, stepsOf),
-	})
+			return append(st, histStep{Op: sp.Get(v, "last.op"), Val: sp.Get(v, "last.val")})
+		}
+		c.RunE1(engine.E1{
+			Part: part, Space: sp, K: 1, Groups: [][]string{group},
+			Skip: func(v engine.Vec) bool { // a call without a body has no write to fail
+				for i := 1; i < depth; i++ {
+					p := strconv.Itoa(i) + "."
+					if sp.Get(v, p+"fault") != "never" && !isBody[sp.Get(v, p+"op")] {
+						return true
+					}
+				}
+				return false
+			},
+			NewWorker: histWorker(c, stepsOf),
+		})
+	}
+	depth := 2
+	histories("history", 2, true)
+	if c.Thorough() {
+		depth = 3
+		histories("history-3", 3, false)
+	}
 
 	// --- every byte position of an interrupted AuthResponseFormPost ------------
 	firstOps := engine.Pick(c, []string{"FP:code"}, []string{"FP:code", "FP:token"})
